@@ -83,9 +83,19 @@ def r1_sibling_form_predicate(ctx, res):
         if len(set(per.values())) != 1 or set(per) != set(FUNCS):
             res.find(key, 'wn/_queries.py', f'the three find_* queries disagree on the form predicate: {per}')
     # pos condition present iff pos
-    for fname, col in (('find_entries', 'e.pos = ?'), ('find_senses', 'e.pos = ?'), ('find_synsets', 'ss.pos = ?')):
+    import re as _re_pos
+
+    def _has_pos(v, table):
+        # `<alias>.pos = ?` with the alias of `table` at the top level of the statement (whatever the alias is called)
+        for o in v.stmt.occs:
+            if o.scope == 0 and o.kind == 'table' and o.table == table \
+                    and _re_pos.search(r'(?<![\w.])' + _re_pos.escape(o.alias) + r'\.pos = \?', ' '.join(v.sql.split())):
+                return True
+        return False
+    for fname, col, table in (('find_entries', 'e.pos = ?', 'entries'), ('find_senses', 'e.pos = ?', 'entries'),
+                              ('find_synsets', 'ss.pos = ?', 'synsets')):
         f = ctx.repo.func('_queries', fname)
-        anyhas = any(col in ' '.join(v.sql.split()) for s in ctx.sites_of(f.key) for v in s.variants if v.stmt is not None)
+        anyhas = any(_has_pos(v, table) for s in ctx.sites_of(f.key) for v in s.variants if v.stmt is not None)
         res.inst(f'pos-condition:{fname}:exists', f.module.loc(f.node), f'some variant filters on {col}')
         if not anyhas:
             res.find(f'pos-condition:{fname}:exists', f.module.loc(f.node),
@@ -94,7 +104,7 @@ def r1_sibling_form_predicate(ctx, res):
             for v in s.variants:
                 if v.stmt is None:
                     continue
-                has = col in ' '.join(v.sql.split())
+                has = _has_pos(v, table)
                 want = v.facts.get('pos') is True
                 key = f'pos-condition:{fname}:{want}'
                 res.inst(key, s.loc, f'pos condition present={has}')
